@@ -139,6 +139,9 @@ func sprintf(f string, a ...any) string { return fmt.Sprintf(f, a...) }
 // slices.Contains(list, elem) is true; slices.Index(list, elem) >= 0 (or != -1, > -1); the comma-ok of a map
 // lookup m[elem]. (Equality with a ranged-over element is handled by the callers, which know the list field.)
 func membership(f km.Fact) (list, elem ssa.Value, ok bool) {
+	if l, e, isM := memberCall(f, true); isM {
+		return l, e, true
+	}
 	cl, idx := callRes(f.X)
 	if cl != nil && idx == 0 {
 		name := km.CalleeFull(cl.Common())
@@ -178,6 +181,9 @@ func isConfigList(v ssa.Value, field string) bool {
 // nonMembership recognises a fact that says "elem is not a member of list": slices.Contains(list, elem) is false,
 // slices.Index(list, elem) < 0 (or == -1), or the comma-ok of a map lookup is false.
 func nonMembership(f km.Fact) (list, elem ssa.Value, ok bool) {
+	if l, e, isM := memberCall(f, false); isM {
+		return l, e, true
+	}
 	cl, idx := callRes(f.X)
 	if cl != nil && idx == 0 {
 		name := km.CalleeFull(cl.Common())
@@ -465,4 +471,192 @@ func evalStringSlice(c *km.Ctx, v ssa.Value, depth int) ([]string, bool) {
 		}
 	}
 	return out, true
+}
+
+// memberPred describes a module function that is a membership predicate: it returns true exactly when its
+// parameter elemIdx equals an element of list (a value of the predicate's own frame: a field of its receiver, a
+// parameter, a package-level variable).
+type memberPred struct {
+	list    ssa.Value
+	elemIdx int
+	ok      bool
+}
+
+var memberPredMemo = map[*ssa.Function]memberPred{}
+
+// memberPredicate recognises `return slices.Contains(list, p)` and the hand-written loop
+// `for _, e := range list { if e == p { return true } }; return false` - with nothing else: every `return true` is
+// reached only through the match, every `return false` only through the exhaustion of the loop (no early return,
+// no break), so that a false result means "compared with every element".
+func memberPredicate(g *ssa.Function) memberPred {
+	if mp, ok := memberPredMemo[g]; ok {
+		return mp
+	}
+	mp := memberPred{}
+	defer func() { memberPredMemo[g] = mp }()
+	if g == nil || g.Blocks == nil {
+		return mp
+	}
+	res := g.Signature.Results()
+	if res.Len() != 1 || res.At(0).Type().String() != "bool" {
+		return mp
+	}
+	paramIdx := func(v ssa.Value) int {
+		v = km.CellOrigin(km.Unwrap(v))
+		for i, p := range g.Params {
+			if ssa.Value(p) == v {
+				return i
+			}
+		}
+		return -1
+	}
+	var rets []*ssa.Return
+	for _, b := range g.Blocks {
+		if r, ok := b.Instrs[len(b.Instrs)-1].(*ssa.Return); ok {
+			rets = append(rets, r)
+		}
+	}
+	// library form
+	if len(rets) == 1 {
+		if cl, ok := km.Unwrap(km.ReturnValues(rets[0])[0]).(*ssa.Call); ok {
+			name := km.CalleeFull(cl.Common())
+			if i := strings.Index(name, "["); i > 0 {
+				name = name[:i]
+			}
+			if name == "slices.Contains" && len(cl.Common().Args) == 2 {
+				if pi := paramIdx(cl.Common().Args[1]); pi >= 0 {
+					mp = memberPred{km.Unwrap(cl.Common().Args[0]), pi, true}
+				}
+			}
+		}
+		return mp
+	}
+	// loop form
+	var match *ssa.If
+	var list ssa.Value
+	elem := -1
+	km.Instrs(g, func(in ssa.Instruction) {
+		iff, ok := in.(*ssa.If)
+		if !ok {
+			return
+		}
+		b, ok := iff.Cond.(*ssa.BinOp)
+		if !ok || b.Op != token.EQL {
+			return
+		}
+		for _, pair := range [][2]ssa.Value{{b.X, b.Y}, {b.Y, b.X}} {
+			pi := paramIdx(pair[0])
+			u, isU := km.Unwrap(pair[1]).(*ssa.UnOp)
+			if pi < 0 || !isU || u.Op != token.MUL {
+				continue
+			}
+			ia, isIA := u.X.(*ssa.IndexAddr)
+			if !isIA {
+				continue
+			}
+			if match != nil {
+				elem = -2 // more than one comparison: not the simple shape
+				return
+			}
+			match, list, elem = iff, km.Unwrap(ia.X), pi
+		}
+	})
+	if match == nil || elem < 0 {
+		return mp
+	}
+	reach := func(from *ssa.BasicBlock, forbidFrom, forbidTo *ssa.BasicBlock) map[*ssa.BasicBlock]bool {
+		seen := map[*ssa.BasicBlock]bool{from: true}
+		stack := []*ssa.BasicBlock{from}
+		for len(stack) > 0 {
+			x := stack[len(stack)-1]
+			stack = stack[:len(stack)-1]
+			for _, s := range x.Succs {
+				if x == forbidFrom && s == forbidTo {
+					continue
+				}
+				if !seen[s] {
+					seen[s] = true
+					stack = append(stack, s)
+				}
+			}
+		}
+		return seen
+	}
+	mb := match.Block()
+	tEdge := mb.Succs[0]
+	// the loop: blocks that reach the comparison and are reached from it
+	fromMatch := reach(mb, nil, nil)
+	cycle := map[*ssa.BasicBlock]bool{}
+	for _, b := range g.Blocks {
+		if fromMatch[b] && reach(b, nil, nil)[mb] {
+			cycle[b] = true
+		}
+	}
+	if !cycle[mb] {
+		return mp // the comparison is not inside a loop
+	}
+	type edge struct{ u, v *ssa.BasicBlock }
+	var exits []edge
+	for b := range cycle {
+		for _, s := range b.Succs {
+			if !cycle[s] {
+				exits = append(exits, edge{b, s})
+			}
+		}
+	}
+	var done *edge
+	for i := range exits {
+		e := exits[i]
+		if e.u == mb && e.v == tEdge {
+			continue
+		}
+		if done != nil {
+			return mp // a second way out of the loop (break, early return)
+		}
+		done = &exits[i]
+	}
+	if done == nil || cycle[tEdge] {
+		return mp
+	}
+	entry := g.Blocks[0]
+	withoutMatch := reach(entry, mb, tEdge)
+	withoutDone := reach(entry, done.u, done.v)
+	for _, r := range rets {
+		cst, isC := km.Unwrap(km.ReturnValues(r)[0]).(*ssa.Const)
+		if !isC || cst.Value == nil {
+			return mp
+		}
+		if km.ValStr(cst) == "true" {
+			if withoutMatch[r.Block()] {
+				return mp // true without a match
+			}
+		} else {
+			if withoutDone[r.Block()] || reach(tEdge, nil, nil)[r.Block()] {
+				return mp // false without having compared every element, or after a match
+			}
+		}
+	}
+	mp = memberPred{list, elem, true}
+	return mp
+}
+
+// memberCall: f says that a membership predicate of the module returned pol for (list, elem).
+func memberCall(f km.Fact, pol bool) (list, elem ssa.Value, ok bool) {
+	if f.Op != token.ILLEGAL || f.Pol != pol {
+		return nil, nil, false
+	}
+	cl, idx := callRes(f.X)
+	if cl == nil || idx != 0 {
+		return nil, nil, false
+	}
+	g := km.StaticCallee(cl.Common())
+	if g == nil || g.Blocks == nil {
+		return nil, nil, false
+	}
+	mp := memberPredicate(g)
+	args := km.CallArgs(cl.Common())
+	if !mp.ok || mp.elemIdx >= len(args) {
+		return nil, nil, false
+	}
+	return mp.list, km.Unwrap(args[mp.elemIdx]), true
 }
